@@ -742,11 +742,23 @@ lzma_lzma_encoder_init(lzma_next_coder *next, const lzma_allocator *allocator,
 extern uint64_t
 lzma_lzma_encoder_memusage(const void *options)
 {
+	return lzma_lzma_encoder_memusage_history(options, 0);
+}
+
+
+extern uint64_t
+lzma_lzma_encoder_memusage_history(const void *options, uint32_t history_min)
+{
 	if (!is_options_valid(options))
 		return UINT64_MAX;
 
 	lzma_lz_options lz_options;
 	set_lz_options(&lz_options, options);
+
+	// LZMA2 encoder keeps more history with tiny dictionaries.
+	// See lzma2_encoder_init().
+	if (lz_options.before_size + lz_options.dict_size < history_min)
+		lz_options.before_size = history_min - lz_options.dict_size;
 
 	const uint64_t lz_memusage = lzma_lz_encoder_memusage(&lz_options);
 	if (lz_memusage == UINT64_MAX)
